@@ -693,5 +693,7 @@ def tagged(shape, msg):
 
 def match_known(f, case, what, go_line, model_line):
     """a known finding suppresses exactly the failures the judge tagged with its shape"""
-    sh_ = f.get("shape")
-    return bool(sh_) and ("[shape=%s]" % sh_) in (what or "")
+    shapes = list(f.get("shapes") or [])
+    if f.get("shape"):
+        shapes.append(f["shape"])
+    return any(("[shape=%s]" % s_) in (what or "") for s_ in shapes)
